@@ -9,6 +9,8 @@
 
 #include "../custom_operator/definition.h"
 #include "../num_traits/to_rep.h"
+#include "../num_traits/width.h"
+#include "../wide-integer.h"
 #include "definition.h"
 
 #include <type_traits>
@@ -29,7 +31,21 @@ namespace cnl {
                 wide_integer<LhsDigits, LhsNarrowest> const& lhs,
                 wide_integer<RhsDigits, RhsNarrowest> const& rhs) const
         {
-            return Operator()(_impl::to_rep(lhs), _impl::to_rep(rhs));
+            using lhs_rep = typename wide_tag<LhsDigits, LhsNarrowest>::rep;
+            using rhs_rep = typename wide_tag<RhsDigits, RhsNarrowest>::rep;
+            if constexpr (
+                    _impl::any_uintwide<lhs_rep> && _impl::any_uintwide<rhs_rep>
+                    && _impl::width<lhs_rep> != _impl::width<rhs_rep>) {
+                // compare in the wider of the two representations; left to itself,
+                // uintwide_t narrows the right-hand operand to the type of the left-hand one
+                using wider_rep = std::conditional_t<
+                        (_impl::width<lhs_rep> < _impl::width<rhs_rep>), rhs_rep, lhs_rep>;
+                return Operator()(
+                        static_cast<wider_rep>(_impl::to_rep(lhs)),
+                        static_cast<wider_rep>(_impl::to_rep(rhs)));
+            } else {
+                return Operator()(_impl::to_rep(lhs), _impl::to_rep(rhs));
+            }
         }
     };
 }
